@@ -46,3 +46,17 @@ void h_control(void)
   __CPROVER_assert(x.m_loc == 0, "CONTROL (must fail): every state is placed at offset 0");
 }
 #endif
+
+/* BOUNDED companion of add_union (<= 3 alternatives, plain unwinding, no loop contract): the area ends exactly as large
+   as the largest of itself and the alternatives.  Independent of how the function is written. */
+void hb_add_union_small(void)
+{
+  layout l0, alts[3]; vec_layout v;
+  l0.m_size = nondet_size();
+  for (unsigned i = 0; i < 3; ++i) alts[i].m_size = nondet_size();
+  v.data = alts; v.cap = 3; v.len = nondet_size(); __CPROVER_assume(v.len <= 3);
+  size_t expect = l0.m_size;
+  for (unsigned i = 0; i < 3; ++i) if (i < v.len && alts[i].m_size > expect) expect = alts[i].m_size;
+  layout_add_union(&l0, v);
+  __CPROVER_assert(l0.m_size == expect, "after add_union the area is exactly as large as the largest of itself and the alternatives");
+}
